@@ -33,6 +33,11 @@ func runC41(c *Ctx) {
 	if os.Getenv("FGCHECK_C41_STATS") != "" {
 		c41stats(m)
 	}
+	// user promises and the unbuffered hooks run on the single promise worker only
+	// (C01 clauses 1 and 3, re-derived here): a promise invoked inline on a caller's
+	// goroutine races the worker running other promises (ProduceSync's result slice)
+	c01once(c, m)
+	c01who(c, m)
 	c41resolveEntries(c, m)
 	litArgLocks = func(f *Func, call *ast.CallExpr, lit *ast.FuncLit) []string {
 		o := calleeObj(f.Info(), call)
